@@ -208,3 +208,23 @@ Proof.
   destruct (now_of s) as [t|]; cbn [lift obind]; [|eexists; reflexivity].
   unfold get_cond. rewrite Hl. cbn [lift obind]. eexists; reflexivity.
 Qed.
+
+Theorem granted_loan_passed_gate c s x a s' id q dflt conds :
+  c_lend c = Margin q dflt conds -> acct_good (s_acct s) ->
+  create_loan c s x a = Done s' id ->
+  margin_level c s q (s_acct s') = Ok None \/
+  exists equity denom, margin_level c s q (s_acct s') = Ok (Some (equity, denom)) /\ 100 <= equity / denom * 100.
+Proof.
+  intros Hl Hg H. unfold create_loan in H.
+  destruct (Qle_bool a 0) eqn:Ea; [discriminate H|]. apply Qle_bool_false in Ea.
+  destruct (now_of s) as [t|]; cbn [lift obind] in H; [|discriminate H].
+  destruct (get_cond c x) as [k|]; cbn [lift obind] in H; [|discriminate H].
+  destruct (outstanding c s _) as [i|]; cbn [lift obind] in H; [|discriminate H].
+  unfold upd_acct in H.
+  destruct (acct_update (margin_rule c s) (s_acct s) [(x, a)] [] [(x, a)]) as [a'|] eqn:E; cbn [obind] in H;
+    [|discriminate H].
+  inversion H; subst. cbn [set_loans set_acct s_acct].
+  apply (margin_gate c s q dflt conds (s_acct s) a' Hl).
+  - eapply create_loan_borrows; [exact Hg | exact Ea | exact E].
+  - eapply acct_update_extra. exact E.
+Qed.
